@@ -220,6 +220,8 @@ def oracles(cfgs0, sq, stats):
                 exp["sleep"] = dict(pre["sleep"]); exp["sleep"][name] = pre["sleep"].get(name, 0) + real
                 exp["times"] = dict(pre["times"]); exp["times"][name] = pre["times"].get(name, 0) + 1
                 exp["errnum"] = pre["errnum"] + 1; exp["cfgs"] = pre["cfgs"] + [cid]
+                if post["errs"] != (pre["errs"] + [errid])[-3:]:      # C20_errors_ring
+                    bad("C20_errors_ring", k, "latest errors %s after recording %d on top of %s" % (post["errs"], errid, pre["errs"]))
                 if any(post[x] != exp[x] for x in ("total", "excl", "sleep", "times", "errnum", "cfgs", "max")):
                     bad("C20_accounting", k, "one back-off step is not accounted exactly: %s" % [x for x in ("total", "excl", "sleep", "times", "errnum", "cfgs", "max") if post[x] != exp[x]])
                 if canc or noop[i]:
@@ -272,6 +274,9 @@ def oracles(cfgs0, sq, stats):
             stats["o_getters"] += 1
             want_k = killed.get(vars_of[i], 0) if vars_of[i] is not None else 0
             want_text = "" if s["total"] == 0 else " backoff(%dms [%s])" % (s["total"], " ".join(cfgs0[x]["text"] for x in s["cfgs"]))
+            # C20_counters_agree on the implementation
+            if not (s["ttimes"] == s["errnum"] == len(s["cfgs"]) and len(s["errs"]) == min(3, s["errnum"])):
+                bad("C20_counters_agree", k, "GetTotalBackoffTimes %d, ErrorsNum %d, %d configs, %d latest errors" % (s["ttimes"], s["errnum"], len(s["cfgs"]), len(s["errs"])))
             if (s["ctx"] != ctx_of[i] or s["vars"] != (-1 if vars_of[i] is None else vars_of[i]) or s["killed"] != want_k
                     or s["ttimes"] != sum(s["times"].values()) or s["text"] != want_text):
                 bad("C20_getters", k, "GetCtx/GetVars/CheckKilled/GetTotalBackoffTimes/String disagree with the history: %s" %
